@@ -9,10 +9,13 @@ mkdir -p .work/bin evidence replays
 build() {
   ( cd harness && cp /repo/go.sum go.sum 2>/dev/null; go build -tags verif -o "$VERIF/.work/bin/check" ./cmd/check ) || return 2
   ( cd harness && go build -o "$VERIF/.work/bin/argvdump" ./cmd/argvdump ) || return 2
+  if [ "${1:-}" = "C18" ] || [ "${1:-}" = "--build-only" ]; then
+    ( cd harness && go build -race -tags verif -o "$VERIF/.work/bin/check-race" ./cmd/check ) || return 2
+  fi
   ( cd /repo && go build -tags verif -o "$VERIF/.work/bin/task" ./cmd/task ) || return 2
   return 0
 }
-if ! build >.work/build.log 2>&1; then
+if ! build "${1:-}" >.work/build.log 2>&1; then
   cat .work/build.log
   echo "ERROR: could not build harness against /repo (exit 2, not a verdict)"
   exit 2
